@@ -100,11 +100,16 @@ def format_parts(t):
     return parts
 
 
+STATICS = {}
+
+
 def text_of(t):
     """(text with {n} for holes, [hole terms]) for a statement-text term, or (None, [])"""
     u = _unwrap_string(t)
     if u[0] == "const" and isinstance(u[1], str):
         return u[1], []
+    if u[0] == "const" and str(u[3]).startswith("static:") and isinstance(STATICS.get(u[3]), str):
+        return STATICS[u[3]], []
     parts = format_parts(t)
     if parts is None:
         return None, []
